@@ -2,7 +2,13 @@
 """Confirms a seeded change (patch.diff + demo.py + meta.json) in a scratch worktree, then runs the named checks of /verif
 against it applied to /repo (undone straight afterwards), and files it under /verif/seeded/<id>/.
 
-usage: tools_seeded.py <src-dir> <seed-id> <check> [<check> ...]
+usage: tools_seeded.py [--harmless] <src-dir> <seed-id> <check> [<check> ...]
+
+--harmless: the change is meant to leave the property true (a refactoring, or a change of behaviour the property does not speak
+about).  Confirmed when the suite passes and its demonstration exits 0 with and without it.  The outcome per check is recorded
+as `quiet` (exit 0), `no-failing-input` (exit 1, every VIOLATION line ends in no-failing-input-found: proof or correspondence no
+longer checks and the search found nothing - what the brief prescribes for a rewrite the model does not follow) or `concrete`
+(exit 1 with a replayable input: either the change is not harmless after all, or the check is wrong - to be settled by hand).
 """
 import sys, os, subprocess, json, shutil, tempfile
 VERIF = os.path.dirname(os.path.abspath(__file__))
@@ -13,7 +19,9 @@ def sh(cmd, cwd=None, timeout=1800):
     return r.returncode, r.stdout
 
 def main():
-    src, sid, checks = sys.argv[1], sys.argv[2], sys.argv[3:]
+    harmless = '--harmless' in sys.argv
+    args = [a for a in sys.argv[1:] if a != '--harmless']
+    src, sid, checks = args[0], args[1], args[2:]
     meta = json.load(open(os.path.join(src, 'meta.json')))
     patch = os.path.abspath(os.path.join(src, 'patch.diff')); demo = os.path.abspath(os.path.join(src, 'demo.py'))
     wt = tempfile.mkdtemp(prefix='seedwt-', dir='/tmp')
@@ -27,7 +35,7 @@ def main():
         tail = [l for l in ot.strip().splitlines() if l.strip()][-1] if ot.strip() else ''
         ran.append('suite with change: exit %d (%s)' % (rct, tail))
         rc1, o1 = sh('%s %s' % (PY, demo), cwd=wt); ran.append('demo with change: exit %d' % rc1)
-        confirmed = (rc0 == 0 and rc1 != 0 and rct == 0)
+        confirmed = (rc0 == 0 and rct == 0 and ((rc1 == 0) if harmless else (rc1 != 0)))
     finally:
         sh('git -C /repo worktree remove --force %s' % wt); shutil.rmtree(wt, ignore_errors=True)
     results = {}
@@ -38,7 +46,9 @@ def main():
             for c in checks:
                 rcc, oc = sh('./check %s' % c, cwd=VERIF)
                 lines = [l for l in oc.splitlines() if l.startswith('VIOLATION') or l.startswith(c)]
-                results[c] = {'exit': rcc, 'lines': [l[:300] for l in lines][:6]}
+                viol = [l for l in lines if l.startswith('VIOLATION')]
+                outcome = 'quiet' if rcc == 0 else ('infra' if rcc != 1 else ('no-failing-input' if viol and all(l.rstrip().endswith('no-failing-input-found') for l in viol) else 'concrete'))
+                results[c] = {'exit': rcc, 'outcome': outcome, 'lines': [l[:300] for l in lines][:6]}
                 # keep the replay text for the record
                 for l in lines:
                     if l.startswith('VIOLATION') and 'replay=' in l:
@@ -58,6 +68,6 @@ def main():
                  'checks_run_against_it': results,
                  'detected_by': sorted(c for c, r in results.items() if r['exit'] == 1)})
     json.dump(meta, open(os.path.join(dst, 'meta.json'), 'w'), indent=1, default=repr)
-    print(sid, 'confirmed' if confirmed else 'NOT CONFIRMED', ran, {c: (r['exit'], r['lines'][:1]) for c, r in results.items()})
+    print(sid, 'confirmed' if confirmed else 'NOT CONFIRMED', ran, {c: (r['exit'], r['outcome'], r['lines'][:1]) for c, r in results.items()})
 
 main()
